@@ -538,6 +538,11 @@ func (m *StoreMon) checkSpec(c *eng.Ctx, s storeState, ev *eng.Event) {
 		}
 		return "[" + strings.Join(p, " ") + "]"
 	}
+	// a writer may first give a store whose map is nil (a zero-value store) a fresh empty map: on a
+	// path that knows the old map to be nil this changes nothing observable
+	if len(muts) >= 1 && muts[0].kind == "replace" && c.IsNil(M) == eng.TriTrue && (m.Method == "Set" || m.Method == "Merge") {
+		muts = muts[1:]
+	}
 	noMut := func() bool { return len(muts) == 0 }
 	res := ev.Results
 	switch m.Method {
